@@ -105,6 +105,12 @@ class Obj(Val):
         self.text = text or ('%s()' % (cls.name if cls else '?'))
 
 
+class EachV(Val):
+    """Elements appended to a list once per iteration of a summarised loop."""
+    def __init__(self, var, coll, elems):
+        self.var, self.coll, self.elems = var, coll, list(elems)
+
+
 class FuncV(Val):
     def __init__(self, fi, closure_env=None):
         self.fi = fi
@@ -148,7 +154,8 @@ def render_item(it):
     if k == 'SYM':
         return it[1]
     if k == 'SLICE':
-        return 'SLICE(%s;%s;%s)' % (it[1], it[2], it[3])
+        inner = it[1] if isinstance(it[1], str) else render_items(it[1])
+        return 'SLICE(%s;%s;%s)' % (inner, it[2], it[3])
     if k == 'HASH':
         return 'HASH(%s;%s)' % (it[1], render_items(it[2]))
     if k == 'EACH':
@@ -199,7 +206,9 @@ def render(v):
         br = '[]' if v.kind == 'list' else '()' if v.kind == 'tuple' else '{}'
         return br[0] + ', '.join(render(e) for e in v.elems) + br[1]
     if isinstance(v, Obj):
-        return v.name
+        return v.text if v.name.startswith('<new') else v.name
+    if isinstance(v, EachV):
+        return 'EACH(%s in %s;%s)' % (v.var, v.coll, ', '.join(render(e) for e in v.elems))
     if isinstance(v, FuncV):
         return '<fn %s>' % v.fi.qualname
     if isinstance(v, ClassV):
@@ -211,6 +220,11 @@ def as_items(v):
     """Coerce a value to byte items."""
     if isinstance(v, Bytes):
         return list(v.items)
+    if isinstance(v, EachV):
+        inner = []
+        for e in v.elems:
+            inner.extend(as_items(e))
+        return [('EACH', v.var, v.coll, inner)]
     if isinstance(v, Const):
         if isinstance(v.value, (bytes, bytearray)):
             return [('C', bytes(v.value))]
@@ -231,6 +245,7 @@ class State(object):
         self.ret = None
         self.raised = None   # text of raised exception
         self.events = []     # ordered mixed events: ('call'|'store'|'yield'|'raise'|'return'|'del', ...)
+        self.hashes = []     # (alg, items, lineno) for every digest taken on this path
 
     def fork(self):
         s = State()
@@ -240,6 +255,7 @@ class State(object):
         s.yields = list(self.yields)
         s.facts = list(self.facts)
         s.events = list(self.events)
+        s.hashes = list(self.hashes)
         s.ret = self.ret
         s.raised = self.raised
         return s
@@ -252,13 +268,15 @@ def _clone(v):
         return Hasher(v.alg, v.items)
     if isinstance(v, ListV):
         return ListV([_clone(e) for e in v.elems], v.kind)
+    if isinstance(v, EachV):
+        return EachV(v.var, v.coll, [_clone(e) for e in v.elems])
     return v
 
 
 class Scenario(object):
     """Finite facts a path depends on."""
     def __init__(self, name='', bind=None, axioms=None, inline=None, inline_props=None, max_depth=3, self_cls=None,
-                 args=None, unroll=None, oracle=None):
+                 args=None, unroll=None, oracle=None, forward_stores=True):
         self.name = name
         self.bind = bind or {}            # dotted path -> Val
         self.axioms = axioms or {}        # normalised condition text -> bool
@@ -269,6 +287,7 @@ class Scenario(object):
         self.args = args or {}            # parameter name -> Val
         self.unroll = unroll or {}        # iterable text -> list of Vals
         self.oracle = oracle              # callable(condition text) -> bool | None  (scenario facts given as a predicate)
+        self.forward_stores = forward_stores   # False for parse methods: attribute stores go through property setters
 
 
 BUILTIN_TYPES = {'str', 'bytes', 'bytearray', 'int', 'bool', 'list', 'tuple', 'set', 'dict', 'NoneType', 'datetime',
@@ -442,6 +461,7 @@ class Frame(object):
             if isinstance(v, Obj) and v.name.startswith('<new'):
                 v = Obj(target.id, v.cls, v.text)
             st.env[target.id] = v
+            st.events.append(('assign', target.id, render(v), getattr(node, 'lineno', 0)))
         elif isinstance(target, (ast.Tuple, ast.List)):
             if isinstance(v, ListV) and len(v.elems) == len(target.elts):
                 for t, e in zip(target.elts, v.elems):
@@ -450,8 +470,13 @@ class Frame(object):
                 for i, t in enumerate(target.elts):
                     self.assign(t, Sym('%s[%d]' % (render(v), i)), st, node)
         elif isinstance(target, ast.Attribute):
-            path = self.text(target, st)
-            st.env[path] = v
+            path = normalise_path('%s.%s' % (self.text(target.value, st), target.attr))
+            if path in self.sc.bind:
+                pass                      # scenario facts are pinned: the store is recorded but does not replace the fact
+            elif self.sc.forward_stores:
+                st.env[path] = v
+            else:
+                st.env.pop(path, None)
             st.stores.append((path, render(v), node.lineno, v))
             st.events.append(('store', path, render(v), node.lineno))
         elif isinstance(target, ast.Subscript):
@@ -601,9 +626,7 @@ class Frame(object):
             elif isinstance(old, ListV):
                 new = base.env.get(name)
                 if isinstance(new, ListV) and len(new.elems) > len(old.elems):
-                    base.env[name] = ListV(old.elems + [Sym('EACH(%s in %s;%s)' % (vartext, colltext,
-                                                           ', '.join(render(e) for e in new.elems[len(old.elems):])))],
-                                           old.kind)
+                    base.env[name] = ListV(old.elems + [EachV(vartext, colltext, new.elems[len(old.elems):])], old.kind)
         # yields inside the loop
         ys = []
         for s in normal:
@@ -875,6 +898,8 @@ class Frame(object):
             if f is not None:
                 return Sym(path, cls=None)
             return Sym(path)
+        if node.attr == 'hasher':
+            return Hasher(bt)
         cls = base.cls if isinstance(base, (Sym, Obj)) else None
         if cls is not None:
             # class-level constant attribute (e.g. __pubfields__) seen through the instance
@@ -928,8 +953,30 @@ class Frame(object):
     def ev_Lambda(self, node, st):
         return Sym(ast.unparse(node))
 
+    def _map_known(self, node, st):
+        """[f(x) for x in L] with L a known list: map element-wise (EachV elements are mapped inside)."""
+        if isinstance(node, ast.DictComp) or len(node.generators) != 1:
+            return None
+        g = node.generators[0]
+        if g.ifs or not isinstance(g.target, ast.Name):
+            return None
+        itv = self.ev(g.iter, st)
+        if not isinstance(itv, ListV) or len(itv.elems) > 12:
+            return None
+
+        def apply(e):
+            if isinstance(e, EachV):
+                return EachV(e.var, e.coll, [apply(x) for x in e.elems])
+            s2 = st.fork()
+            s2.env[g.target.id] = e
+            return self.ev(node.elt, s2)
+        return ListV([apply(e) for e in itv.elems], 'list')
+
     def _comp(self, node, st, br):
         # comprehension: evaluate the element with generator variables symbolic
+        mk = self._map_known(node, st)
+        if mk is not None:
+            return mk
         s2 = st.fork()
         gens = []
         for g in node.generators:
@@ -1081,7 +1128,7 @@ class Frame(object):
                         return Bytes([('C', its[0][1][lo_i:hi_i])])
                     except ValueError:
                         pass
-                return Bytes([('SLICE', render_items(base.items), lo, hi)])
+                return Bytes([('SLICE', merge_consts(base.items), lo, hi)])
             return Bytes([('SLICE', render(base), lo, hi)])
         idx = self.ev(sl, st)
         if isinstance(base, ListV) and isinstance(idx, Const) and isinstance(idx.value, int):
@@ -1158,9 +1205,11 @@ class Frame(object):
                     return Const(None)
                 if meth in ('digest', 'finalize'):
                     record('HASHER.' + meth)
+                    st.hashes.append((recv.alg, list(recv.items), node.lineno))
                     return Bytes([('HASH', recv.alg, list(recv.items))])
                 if meth == 'hexdigest':
                     record('HASHER.hexdigest')
+                    st.hashes.append((recv.alg, list(recv.items), node.lineno))
                     return Sym('hex(%s)' % render_item(('HASH', recv.alg, list(recv.items))))
                 if meth == 'copy':
                     return Hasher(recv.alg, recv.items)
@@ -1295,7 +1344,10 @@ class Frame(object):
                 fake = ast.Attribute(value=node.args[0], attr=args[1].value, ctx=ast.Load())
                 return self.ev_Attribute(fake, st)
             if n == 'reversed' and len(args) == 1 and isinstance(args[0], ListV):
-                return ListV(list(reversed(args[0].elems)), args[0].kind)
+                rev = []
+                for e in reversed(args[0].elems):
+                    rev.append(EachV(e.var, 'reversed(%s)' % e.coll, e.elems) if isinstance(e, EachV) else e)
+                return ListV(rev, args[0].kind)
             r = self.prog.lookup(self.module, n)
             if isinstance(r, ClassInfo):
                 record(n)
@@ -1416,6 +1468,7 @@ class Frame(object):
         frame_st.calls = st.calls
         frame_st.stores = st.stores
         frame_st.events = st.events
+        frame_st.hashes = st.hashes
         fr = Frame(self.I, fi, self.depth + 1)
         outs = fr.block(fi.node.body, frame_st)
         rets = [(s, status) for s, status in outs if status in ('return', 'normal')]
